@@ -139,15 +139,17 @@ CHECKS["C17"] = dict(
 
 CHECKS["C04"] = dict(
     category="other",
-    technique="table reading from MIR (lookup type match table, lookup flag masks and decision order, reader dispatch agreement), container-type and who-may-touch rule on the lookup accumulators, CFG ordering rule for rvrn, enum-dispatch exhaustiveness, provenance of match positions from the flag-aware iterator, call-graph SCC depth-guard rule",
+    technique="table reading from MIR (lookup type match table, lookup flag masks and decision order, reader dispatch agreement), container-type and who-may-touch rule on the lookup accumulators, CFG ordering rule for rvrn, enum-dispatch exhaustiveness, provenance of match positions from the flag-aware iterator, call-graph SCC depth-guard rule, forward path walk over the loop body with piecewise-linear comparison of counter updates",
     text=("Static decision of the structural clauses of C04: lookups of the enabled features are accumulated in a BTreeMap keyed by lookup index "
           "and consumed in key order (lookup-list order, each once), rvrn first; GSUB lookup type numbers, lookup flag masks and the IGNORE_MARKS "
           "precedence equal the specification; the reader builds the subtable type of each lookup kind; every dispatcher lists all seven kinds; "
           "positions inside a matched sequence come from the lookup-flag-aware iterator; nested lookups are depth bounded and receive the nested lookup's own match type; the three mark-skipping "
           "modes of match_glyph only ever reject marks; every FeatureMask flag has exactly one row, with its namesake tag, in the evaluated "
           "FEATURE_MASKS table; the readers of 23 OpenType Layout record types consume the specification's items in order, with their widths, "
-          "into fields of the same meaning; feature-variation conditions test their range inclusively. Glyph matching, "
-          "context rule selection, iteration arithmetic and ligature bookkeeping are not decided."),
+          "into fields of the same meaning; feature-variation conditions test their range inclusively; after a multiple or ligature substitution "
+          "the position and the bound of the run being processed move by what the substitution reports (T04-RUN, piecewise-linear comparison of the "
+          "updates with the specification), in the top-level loop and in the change reported by a nested lookup. Glyph matching, "
+          "context rule selection and the bookkeeping of context lookups are not decided."),
     design_ref="DESIGN.md section 6, C04",
 )
 
